@@ -1,6 +1,8 @@
 package scen
 
 import (
+	baskettypes "github.com/regen-network/regen-ledger/x/ecocredit/v3/basket/types/v1"
+
 	"strings"
 	"time"
 
@@ -101,6 +103,8 @@ func Core() Spec {
 		fix(RetireN(B, Cr(B1, "1"), Cr(B1, "0.5"))),
 		fix(CancelN(C, Cr(B1, "0.5"), Cr(B2, "0.5"))),
 		MintN(A, B1, Iss(B, "1", "0.5"), Iss(B, "0.25", "0"), Iss(C, "0", "1")),
+		fix(CreateBatch(A, "C01-001", date(2025, 1, 1), date(2026, 1, 1), true, nil, Iss(D, "0", "0"), Iss(B, "2", "0.5"))), // an all-zero entry FIRST
+		MintN(A, B1, Iss(D, "0", "0"), Iss(C, "0.5", "0")),
 		// a batch opened with nothing but a zero issuance (the usual way to prepare a batch for later minting)
 		fix(CreateBatch(A, "C01-001", date(2023, 1, 1), date(2024, 1, 1), true, nil, Iss(D, "0", "0"))),
 		fix(CreateBatch(A, "C01-001", date(2024, 1, 1), date(2025, 1, 1), true, nil, Iss(D, "0", ""), Iss(C, "", "0"))),
@@ -164,6 +168,8 @@ func Basket() Spec {
 		fix(Retire(C, B1, "1")),
 		fix(Cancel(B, B2, "1")),
 		MintFresh(A, B1, C, "2", "0"),
+		// the curator changes hands (the basket row is rewritten) while the basket holds credits
+		fix(Msg("UpdateCurator(A,NCT->B)", &baskettypes.MsgUpdateCurator{Curator: A.String(), Denom: NCT, NewCurator: B.String()})),
 	}
 	return Spec{Name: "basket", Seeds: []explore.Seed{PreparedSeed("prepared"), FreshCoreBasketSeed()},
 		Events: append(good, bad...), DepthQuick: 5, DepthThor: 6, ExpectFail: expectFail(names(bad...)...), MinStates: 500}
@@ -220,7 +226,10 @@ func Market() Spec {
 		Buy(D, "zero-qty", BuySpec{Seller: B, K: 0, Qty: "0", DAR: true, MaxFee: I64(100)}),
 		Buy(D, "negative-qty", BuySpec{Seller: B, K: 0, Qty: "-0.5", DAR: true, MaxFee: I64(100)}),
 	}
+	e10a := chain.T0.Add(10*time.Second + 200*time.Millisecond)
 	good := []E{
+		fix(Sell(C, B2, "0.5", ur(2), true, &e10a)),      // expires 200 ms into a second ...
+		fix(Next(10*time.Second + 500*time.Millisecond)), // ... and a block 500 ms into the same second
 		fix(Sell(B, B1, "1.5", ur(3), true, nil)),
 		fix(Sell(B, B2, "1e0", ib(7), false, &e20)),
 		fix(Sell(C, B1, Eps, ur(1000003), true, &e10)),
@@ -277,6 +286,7 @@ func BridgeSpec() Spec {
 		fix(BridgeReceive(A, "C01", "VCS-1", B, Eps, date(2020, 1, 1), date(2022, 1, 1), tx(2, "Polygon", Contract1))),   // case variant of source
 		fix(Mint(A, B3, C, "1", "0.5", tx(4, "polygon", ""))),
 		fix(Mint(A, B1, C, "1", "0", tx(2, "polygon", ""))), // same id as a BridgeReceive event: whichever comes first wins
+		fix(Mint(A, B3, C, "1", "0", tx(2, "Polygon", ""))), // the capitalised spelling, same id as the capitalised receipt
 		fix(Mint(A, B3, C, "1", "0", tx(3, "polygon", ""))), // b3 lives in project key 3 of class key 1; tx 3 is also used by a BridgeReceive and a CreateBatch
 		fix(CreateBatch(A, "C01-002", date(2022, 1, 1), date(2023, 1, 1), true, tx(3, "polygon", ""), Iss(B, "1", "0"))),
 		fix(CreateBatch(A, "C01-001", date(2022, 1, 1), date(2023, 1, 1), true, tx(5, "polygon", Contract2), Iss(B, "3", "0"))),
